@@ -3,6 +3,7 @@ package dbsim
 import (
 	"bytes"
 	"fmt"
+	"github.com/feichai0017/NoKV/lsm"
 	"os"
 	"path/filepath"
 	"sort"
@@ -52,17 +53,30 @@ func genCrash(r *sim.Rand, tier, prop string) *sim.Case {
 		n = 8 + r.Intn(32)
 	}
 	written := map[string]bool{}
+	// key pattern for plain overwrites: uniform, or a window of two keys that
+	// moves on at every rotation with an occasional wide write (L0 tables with
+	// disjoint and partially overlapping ranges, as in C01)
+	pattern, phase := r.Pick(0, 0, 1, 2), 0
+	if pattern == 2 && c.Cfg["api"] == 0 && c.Cfg["overwrite"] == 1 {
+		c.Ops = append(c.Ops, GenL0Layout(r, nkeys, 0)...)
+	}
 	for i := 0; i < n; i++ {
 		if r.Intn(100) < 35 {
 			m := GenMaint(r)
 			if m.K == "reopen" && r.Intn(2) == 0 {
 				m = sim.Op{K: "flush"}
 			}
+			if m.K == "rotate" {
+				phase += 2
+			}
 			c.Ops = append(c.Ops, m)
 			continue
 		}
 		if c.Cfg["api"] == 0 {
 			cfi, ki := r.Intn(3), r.Intn(nkeys)
+			if pattern == 1 && c.Cfg["overwrite"] == 1 && r.Intn(6) != 0 {
+				cfi, ki = 0, (phase+r.Intn(2))%nkeys
+			}
 			k := pk(cfi, ki)
 			if written[k] && c.Cfg["overwrite"] == 0 {
 				continue
@@ -80,6 +94,10 @@ func genCrash(r *sim.Rand, tier, prop string) *sim.Case {
 	}
 	if prop == "C11" {
 		// maintenance schedule applied to every reopened image
+		if pattern == 2 {
+			// images cut inside the layout script are compacted from L0 after the reopen
+			c.Ops = append(c.Ops, sim.Op{K: "flushall", S: "post"}, sim.Op{K: "compact", A: 0, C: int64(r.Intn(3)), D: int64(r.Intn(2)), S: "post"})
+		}
 		for i := 0; i < 6+r.Intn(6); i++ {
 			m := GenMaint(r)
 			if m.K == "reopen" || m.K == "advance" {
@@ -112,7 +130,7 @@ type crashImage struct {
 }
 
 // tieKeys returns the (cf/key) names that currently have two stored copies of
-// one version with at least one of them below L0. Plain-API overwrites all
+// one version below L0. Plain-API overwrites all
 // carry version 2^64-1; which of two such copies a level's ingest buffer
 // returns (and keeps when it is merged) does not depend on recency - known
 // finding, root C01.
@@ -127,13 +145,16 @@ func tieKeys(w *World, nkeys int, into map[string]bool) {
 				byVer[cp.Version] = append(byVer[cp.Version], Where(cp))
 			}
 			for _, wh := range byVer {
-				if len(wh) < 2 {
-					continue
-				}
+				below := 0
 				for _, x := range wh {
 					if x == "Ln" || x == "Ln-ingest" {
-						into[fmt.Sprintf("%d/%s", cf, keyNames[ki])] = true
+						below++
 					}
+				}
+				// the known defect needs both copies below L0 (L0 and memtables are
+				// searched newest-first and before the levels)
+				if below >= 2 {
+					into[fmt.Sprintf("%d/%s", cf, keyNames[ki])] = true
 				}
 			}
 		}
@@ -240,10 +261,14 @@ func execCrash(t *testing.T, c *sim.Case, prop string) *sim.Result {
 		var post []sim.Op
 		cumTies := map[string]bool{}
 		snapTies := func(i int) {
-			if !plain || i < 0 || w.DB == nil {
+			if i < 0 || w.DB == nil {
 				return
 			}
-			tieKeys(w, nkeys, cumTies)
+			if plain {
+				tieKeys(w, nkeys, cumTies)
+			} else {
+				invKeys(w, nkeys, cumTies)
+			}
 			tieAfter[i] = map[string]bool{}
 			for k := range cumTies {
 				tieAfter[i][k] = true
@@ -356,6 +381,10 @@ func phaseOf(ev sim.FSEvent) string { return ev.Op + "_" + ev.Class }
 func checkImage(t *testing.T, c *sim.Case, res *sim.Result, prop string, n int, img *crashImage, batches [][]batchWrite, plain bool, post []sim.Op, ties map[string]bool) {
 	iw := &World{T: t, C: c, Res: res, Dir: img.dir}
 	iw.FS = sim.NewSimFS(img.dir)
+	if os.Getenv("VERIF_IMGTRACE") != "" {
+		iw.FS.Trace = res.Trace
+		res.Trace.Add("--- image %d", n)
+	}
 	iw.step = n
 	sync := c.CfgInt("sync_writes", 0) == 1
 	sig := map[string]string{"crash_phase": phaseOf(img.ev), "torn": "no", "sync_writes": "no", "api": "txn", "vlog_gc_ran": "no"}
@@ -403,23 +432,27 @@ func checkImage(t *testing.T, c *sim.Case, res *sim.Result, prop string, n int, 
 	// equal-version copies below L0 (plain overwrites): seen while the image was
 	// being produced, or present in the image itself
 	tied := map[string]bool{}
+	for k := range ties {
+		tied[k] = true
+	}
 	if plain {
-		for k := range ties {
-			tied[k] = true
-		}
 		tieKeys(iw, int(c.CfgInt("keys", 3)), tied)
+	} else {
+		// transactional runs: "tied" holds version-order inversions instead
+		invKeys(iw, int(c.CfgInt("keys", 3)), tied)
 	}
 	tieSig := func(base map[string]string, keys ...string) map[string]string {
+		fact := "equal_version_tie"
 		if !plain {
-			return base
+			fact = "version_order_inverted"
 		}
-		out := map[string]string{"equal_version_tie": "no"}
+		out := map[string]string{fact: "no"}
 		for k, v := range base {
 			out[k] = v
 		}
 		for _, k := range keys {
 			if tied[k] {
-				out["equal_version_tie"] = "yes"
+				out[fact] = "yes"
 			}
 		}
 		return out
@@ -467,11 +500,26 @@ func checkImage(t *testing.T, c *sim.Case, res *sim.Result, prop string, n int, 
 				}
 			}
 			if bad {
-				res.Violate(n, "acked_write_lost", sig, "%s: key %s: recovered %s, acknowledged %s", where, k, descRec(rs), descMod(ms))
+				// are all acknowledged writes of the key stored in some container of the image?
+				s2 := map[string]string{"expected_stored": "yes"}
+				for k2, v := range sig {
+					s2[k2] = v
+				}
+				for _, m := range ms {
+					if !StoredCopy(iw, m.cf, []byte(m.key), 0, m.val, m.del) {
+						s2["expected_stored"] = "no"
+					}
+				}
+				res.Violate(n, "acked_write_lost", tieSig(s2, k), "%s: key %s: recovered %s, acknowledged %s; copies: %s", where, k, descRec(rs), descMod(ms), DescribeCopies(iw, ms[0].cf, []byte(ms[0].key)))
 			}
 		}
 	case "C10", "C11":
 		if prop == "C10" {
+			// Do the stored copies themselves (every container, each version taken from
+			// a readable copy of exactly that version) equal some prefix? Then the
+			// non-prefix view is produced by the read path (a version served by a copy
+			// of another version), not by lost or extra data.
+			sig["stored_contents_prefix"] = yn(storedMatchesPrefix(iw, int(c.CfgInt("keys", 3)), batches, plain))
 			switch {
 			case match < 0:
 				kind := classifyNonPrefix(rec, batches, plain)
@@ -485,7 +533,7 @@ func checkImage(t *testing.T, c *sim.Case, res *sim.Result, prop string, n int, 
 			}
 			for _, d := range dump {
 				if d.ReadErr != "" {
-					res.Violate(n, "present_key_unreadable", sig, "%s: %s", where, d)
+					res.Violate(n, "present_key_unreadable", tieSig(sig, fmt.Sprintf("%d/%s", d.CF, d.Key)), "%s: %s; copies: %s", where, d, DescribeCopies(iw, d.CF, []byte(d.Key)))
 				}
 			}
 		}
@@ -493,8 +541,14 @@ func checkImage(t *testing.T, c *sim.Case, res *sim.Result, prop string, n int, 
 	if prop == "C11" {
 		// Background work alone must not change the contents of a reopened database.
 		before := dump
+		postTies := map[string]bool{}
 		for _, op := range post {
 			iw.Maint(op)
+			if plain {
+				tieKeys(iw, int(c.CfgInt("keys", 3)), postTies)
+			} else {
+				invKeys(iw, int(c.CfgInt("keys", 3)), postTies)
+			}
 		}
 		for i := 0; i < 8 && iw.FlushOne(); i++ {
 		}
@@ -506,6 +560,16 @@ func checkImage(t *testing.T, c *sim.Case, res *sim.Result, prop string, n int, 
 			}
 			if GCRan(iw) || img.gcRan {
 				s["vlog_gc_ran"] = "yes"
+			}
+			k := fmt.Sprintf("%d/%s", d.CF, d.Key)
+			if plain {
+				// two equal-version copies of this key below L0 (known tie defect), now or
+				// while the image was produced?
+				tieKeys(iw, int(c.CfgInt("keys", 3)), postTies)
+				s["equal_version_tie"] = yn(postTies[k] || tied[k])
+			} else {
+				invKeys(iw, int(c.CfgInt("keys", 3)), postTies)
+				s["version_order_inverted"] = yn(postTies[k] || tied[k])
 			}
 			return s
 		}
@@ -519,6 +583,75 @@ func checkImage(t *testing.T, c *sim.Case, res *sim.Result, prop string, n int, 
 		again := Dump(iw)
 		DiffDumps(iw, "second_reopen_changed_contents", hz, after, again, where+": second reopen")
 	}
+}
+
+// invKeys adds the (cf/key) names for which a lower version currently sits in a
+// container that the read path searches before a container holding a higher
+// version (after a value-log GC re-insertion): the first-hit read path then
+// serves - and GC's liveness lookup then sees - the lower version (known
+// finding, root C02).
+func invKeys(w *World, nkeys int, into map[string]bool) {
+	if w.DB == nil {
+		return
+	}
+	before := func(a, b lsm.VerifCopy) bool {
+		ra, rb := containerRank(a.Where), containerRank(b.Where)
+		if ra != rb {
+			return ra < rb
+		}
+		return a.Where == "L0" && a.FileID > b.FileID // newer L0 table first
+	}
+	for _, cf := range cfs {
+		for ki := 0; ki < nkeys && ki < len(keyNames); ki++ {
+			cps := w.DB.VerifLocate(cf, []byte(keyNames[ki]))
+			for i := range cps {
+				for j := range cps {
+					if cps[i].Version < cps[j].Version && before(cps[i], cps[j]) {
+						into[fmt.Sprintf("%d/%s", cf, keyNames[ki])] = true
+					}
+				}
+			}
+		}
+	}
+}
+
+// storedMatchesPrefix rebuilds the per-key version sequences from the stored
+// copies (not through the read path) and compares them with every prefix.
+func storedMatchesPrefix(w *World, nkeys int, batches [][]batchWrite, plain bool) bool {
+	if w.DB == nil {
+		return false
+	}
+	raw := map[string][]recEntry{}
+	for _, cf := range cfs {
+		for ki := 0; ki < nkeys && ki < len(keyNames); ki++ {
+			byVer := map[uint64]recEntry{}
+			var vers []uint64
+			for _, cp := range w.DB.VerifLocate(cf, []byte(keyNames[ki])) {
+				r := recEntry{val: cp.Value, del: cp.Meta&kv.BitDelete != 0, version: cp.Version}
+				if !r.del && cp.Value == nil && cp.Meta&kv.BitValuePointer != 0 {
+					r.readErr = "unreadable copy"
+				}
+				old, seen := byVer[cp.Version]
+				if !seen {
+					vers = append(vers, cp.Version)
+				}
+				if !seen || (old.readErr != "" && r.readErr == "") {
+					byVer[cp.Version] = r
+				}
+			}
+			sort.Slice(vers, func(i, j int) bool { return vers[i] < vers[j] })
+			for _, v := range vers {
+				k := fmt.Sprintf("%d/%s", cf, keyNames[ki])
+				raw[k] = append(raw[k], byVer[v])
+			}
+		}
+	}
+	for j := len(batches); j >= 0; j-- {
+		if sameSeqs(raw, modelSeqs(batches, j, plain)) {
+			return true
+		}
+	}
+	return false
 }
 
 func matchesAny(r recEntry, batches [][]batchWrite, from int, key string) bool {
